@@ -23,7 +23,7 @@ from props import common
 
 ID = "C04"
 LEVEL = "exploration"
-QUICK_RUNS = 25000
+QUICK_RUNS = 16000
 QUICK_BUDGET_S = 50.0
 THOROUGH_RUNS = 10 ** 9
 BATCH = 100
@@ -47,7 +47,8 @@ COMPONENTS = {
 }
 PROBES = ["pair_bytesio", "pair_realfile", "pair_sink_seq", "pair_pipe", "codec_null", "codec_deflate",
           "codec_bzip2", "codec_xz", "empty_file", "interval_1", "record_eq_interval", "record_gt_interval",
-          "zero_byte_block", "parsed_schema", "metadata_given", "marker_default"]
+          "zero_byte_block", "parsed_schema", "metadata_given", "marker_default", "recode_with_first_files_metadata",
+          "profile_many_records", "profile_huge_record"]
 
 
 def setup():
@@ -81,9 +82,11 @@ def _read(F, fo):
 
 def run_one(ch, ctx):
     F = common.fa()
-    sc = common.container_scenario(ch, max_records=12, hints=True, big=ch.chance(10))
-    sizes = common.encoded_sizes(sc)
-    sc.sync_interval = common.draw_sync_interval(ch, sizes)
+    sc = common.container_scenario(ch, max_records=12, hints=True, big=ch.chance(10), size_profiles=True)
+    sizes = common.encoded_sizes(sc) if sc.profile == "small" else [8]
+    sc.sync_interval = common.draw_sync_interval(ch, sizes, sc)
+    if sc.profile != "small":
+        ctx.probe("profile_" + sc.profile)
     ctx.probe("codec_" + sc.codec)
     if not sc.records:
         ctx.probe("empty_file")
@@ -146,7 +149,9 @@ def run_one(ch, ctx):
         cap = ch.pick([1, 3, 16, 64, 4096, None])
         if cap in (1, 3) and sum(sizes) > 600:
             cap = 64
-        monitor = ch.chance(30)
+        if sc.profile != "small":
+            cap = ch.pick([4096, 65536, None])   # byte-wise hand-over of 100 KiB would take minutes
+        monitor = ch.chance(30) and sc.profile == "small"
         strategy = ("uniform",) if ch.draw(2) else ("sticky", ch.pick([500, 900]))
         info = {"pair": "pipe", "capacity": cap, "monitor": monitor, "strategy": list(strategy)}
         s = sched.Scheduler(ch.fork("sched"), strategy, max_steps=3_000_000, monitor=monitor)
@@ -188,15 +193,26 @@ def run_one(ch, ctx):
     _verify(F, sc, meta, recs, desc, info)
     ctx.evals += 1
     # grouping independence: same records under a second sync_interval read back identically
-    si2 = common.draw_sync_interval(ch, sizes)
+    si2 = common.draw_sync_interval(ch, sizes)   # (second grouping: always a freshly drawn interval)
     old = sc.sync_interval
     sc.sync_interval = si2
     fo2 = io.BytesIO()
     info2 = {"pair": "bytesio", "second_interval": si2, "first_interval": old}
+    old_codec, old_meta = sc.codec, sc.metadata
+    if ch.chance(30):
+        # re-encode: another codec, metadata taken over from the first file as read back (it
+        # contains the first file's avro.codec / avro.schema entries): the codec ARGUMENT must win
+        sc.codec = ch.pick([c for c in common.CODECS if c != old_codec])
+        sc.metadata = dict(meta["metadata"])
+        info2["recode"] = {"from": old_codec, "to": sc.codec}
+        ctx.probe("recode_with_first_files_metadata")
     _write(F, sc, fo2, desc, info2)
     fo2.seek(0)
     meta2, recs2 = _guard_read(F, fo2, desc, info2)
+    if meta2["codec"] != sc.codec:
+        raise Violation("self-describing", "codec-differs", detail=dict(info2, read=meta2["codec"], supplied=sc.codec), scenario=desc)
     sc.sync_interval = old
+    sc.codec, sc.metadata = old_codec, old_meta
     if len(recs2) != len(recs) or not all(refavro.value_eq(a, b) for a, b in zip(recs, recs2)):
         raise Violation("grouping", "records-depend-on-block-grouping", detail=dict(info2, n1=len(recs), n2=len(recs2)), scenario=desc)
     ctx.evals += 1
